@@ -34,6 +34,44 @@ type argTrack struct {
 	lists  [][]*big.Int // argument slices: their elements (pointers) must stay in place
 	listP  [][]*big.Int
 	checks []func() string // further post-call checks (struct fields, key arrays)
+	keep   []func() string // renderers of RESULT objects, re-evaluated after later ops (results must stay stable)
+}
+
+// Keep registers a result object: it is rendered now and again after each of the next ops; a change means
+// that a later call wrote into memory handed out as a result (shared cache entry, pooled buffer reused …).
+func (a *argTrack) Keep(f func() string) { a.keep = append(a.keep, f) }
+
+type retained struct {
+	op   string
+	f    func() string
+	want string
+}
+
+var ring []retained
+
+func ringAdd(op string, fs []func() string) {
+	for _, f := range fs {
+		ring = append(ring, retained{op, f, f()})
+	}
+	if len(ring) > 64 {
+		ring = ring[len(ring)-64:]
+	}
+}
+
+func ringCheck() string {
+	out := ""
+	kept := ring[:0]
+	for _, r := range ring {
+		if got := r.f(); got != r.want {
+			if out == "" {
+				out = " !RESULT-CHANGED(result of earlier op [" + strings.Fields(r.op)[0] + "] was overwritten)"
+			}
+			continue
+		}
+		kept = append(kept, r)
+	}
+	ring = kept
+	return out
 }
 
 func (a *argTrack) Int(tok string) *big.Int {
@@ -332,7 +370,12 @@ func execOp(line string) (res string) {
 		if strings.HasPrefix(r, "PANIC") || strings.HasPrefix(r, "HARNESS") {
 			return r
 		}
-		return r + a.mutated() + constGuard()
+		extra := ""
+		if !concurrentMode {
+			extra = ringCheck()
+			ringAdd(line, a.keep)
+		}
+		return r + a.mutated() + constGuard() + extra
 	case <-time.After(60 * time.Second):
 		return "TIMEOUT"
 	}
@@ -398,6 +441,7 @@ func dispatch(op, pat string, args []string, a *argTrack) string {
 			}
 			return classify(err)
 		}
+		a.Keep(func() string { return showInts(r) })
 		return showInts(r)
 	case "poseidon.tablesum":
 		need(args, 1)
@@ -436,13 +480,16 @@ func dispatch(op, pat string, args []string, a *argTrack) string {
 		return mimc7.MIMC7Hash(a.Int(args[0]), a.Int(args[1])).String()
 	case "mimc7.mimc7hashgeneric":
 		need(args, 3)
-		return mimc7.MIMC7HashGeneric(a.Int(args[0]), a.Int(args[1]), atoi(args[2])).String()
+		rg := mimc7.MIMC7HashGeneric(a.Int(args[0]), a.Int(args[1]), atoi(args[2]))
+		a.Keep(func() string { return rg.String() })
+		return rg.String()
 	case "mimc7.hashbytes":
 		need(args, 1)
 		r, err := mimc7.HashBytes(a.Bytes(args[0]))
 		if err != nil {
 			return classify(err)
 		}
+		a.Keep(func() string { return r.String() })
 		return r.String()
 	case "mimc7.consts":
 		seedHash, iv, n, cts := mimc7.VerifConstants()
@@ -487,10 +534,26 @@ func dispatch(op, pat string, args []string, a *argTrack) string {
 		if pat == "nil0" && len(sl) > 0 && len(sl[0]) == 0 {
 			sl[0] = nil
 		}
-		return showBytes(keccak256.Hash(sl...))
+		h1 := keccak256.Hash(sl...)
+		s1 := showBytes(h1)
+		// the digest handed out must not be reused by a later call
+		h2 := keccak256.Hash([]byte("verif-interleaved-call"))
+		_ = h2
+		if showBytes(h1) != s1 {
+			return s1 + "!result-overwritten-by-next-call"
+		}
+		a.Keep(func() string { return showBytes(h1) })
+		return s1
 	case "blake.hash":
 		need(args, 1)
-		return showBytes(babyjub.Blake512(a.Bytes(args[0])))
+		d1 := babyjub.Blake512(a.Bytes(args[0]))
+		s1 := showBytes(d1)
+		_ = babyjub.Blake512([]byte("verif-interleaved-call"))
+		if showBytes(d1) != s1 {
+			return s1 + "!result-overwritten-by-next-call"
+		}
+		a.Keep(func() string { return showBytes(d1) })
+		return s1
 	// ---------------- babyjub ----------------
 	case "bj.add":
 		need(args, 4)
@@ -515,7 +578,9 @@ func dispatch(op, pat string, args []string, a *argTrack) string {
 		need(args, 3)
 		s := a.Int(args[0])
 		p := a.Point(args[1], args[2])
-		return showPt(babyjub.NewPoint().Mul(s, p))
+		res := babyjub.NewPoint().Mul(s, p)
+		a.Keep(func() string { return showPt(res) })
+		return showPt(res)
 	case "bj.mulrecv":
 		need(args, 3)
 		s := a.Int(args[0])
@@ -641,7 +706,12 @@ func dispatch(op, pat string, args []string, a *argTrack) string {
 		if r1.Cmp(r2) != 0 {
 			return r1.String() + "!routes-differ:" + r2.String()
 		}
-		return r1.String()
+		out := r1.String()
+		r1.SetInt64(0xBAD)
+		if r3 := babyjub.SkToBigInt(k); r3.String() != out {
+			return out + "!result-shared-with-later-call"
+		}
+		return out
 	case "ed.public":
 		need(args, 1)
 		k := a.Key(args[0])
@@ -651,7 +721,17 @@ func dispatch(op, pat string, args []string, a *argTrack) string {
 		if showPt(p1.Point()) != showPt(p2.Point()) || showPt(p1.Point()) != showPt(p3.Point()) {
 			return showPt(p1.Point()) + "!routes-differ"
 		}
-		return showPt(p1.Point())
+		out := showPt(p1.Point())
+		// write through the returned key (its documented use as a destination) and derive again:
+		// a result shared with later calls (cache) shows up as a different public key
+		p1.X.SetInt64(0xBAD)
+		p1.Y.SetInt64(0xBAD)
+		p4 := k.Public()
+		if showPt(p4.Point()) != out {
+			return out + "!result-shared-with-later-call"
+		}
+		a.Keep(func() string { return showPt(p4.Point()) })
+		return out
 	case "ed.sign":
 		need(args, 3)
 		k := a.Key(args[1])
@@ -679,6 +759,7 @@ func dispatch(op, pat string, args []string, a *argTrack) string {
 		if c != c2 {
 			return "!nondeterministic"
 		}
+		a.Keep(func() string { return showPt(sig2.R8) + sig2.S.String() })
 		return fmt.Sprintf("%s %s %s", showPt(sig.R8), sig.S, showBytes(c[:]))
 	case "ed.verify":
 		need(args, 7)
